@@ -35,56 +35,50 @@ def classify(op, i):
 
 
 def effects_mut(prog, f, nfields):
-    """Per-field effect of translate_mut from its writes through self."""
-    org = Origins(f)
+    """Per-field effect of translate_mut from the effects of its path summaries (loops and for_each walked once: an
+    element-wise `+= by` over field.iter_mut() shifts the field)."""
+    from mirq.paths import Paths, Unsupported
     eff = {i: "same" for i in range(nfields)}
-    body = f.body
+    seen = {}
 
-    def field_of(tree):
-        m = match(strip_refs(tree), ("field", SELF, "?i"))
-        return m["?i"] if m is not None else None
-    for bi in sorted(org.cfg.live_blocks()):
-        blk = body["blocks"][bi]
-        for si, s in enumerate(blk["s"]):
-            if s["k"] == "assign" and s["place"]["l"] == 1 and "*" in s["place"]["p"]:
-                fs = [e["f"] for e in s["place"]["p"] if isinstance(e, dict) and "f" in e]
-                if len(fs) == 1:
-                    eff[fs[0]] = classify(org._rvalue(s["rv"], bi, si), fs[0])
-                elif fs:
-                    eff[fs[0]] = "?"
-        t = blk["t"]
-        if t and t["k"] == "call":
-            nm = t["f"].get("name")
-            args = [strip_refs(a) for a in org.term_args(bi)]
-            touched = [field_of(a) for a in args if field_of(a) is not None]
-            if nm in ("add_assign", "translate_mut") and len(args) == 2 and touched and args[1] == BY:
-                i = field_of(args[0])
-                if i is not None:
-                    eff[i] = "shift"
-                continue
-            if nm == "for_each" and len(args) == 2:
-                m = match(args[0], ("call", "*::iter_mut", "_", ("?x",)))
-                i = field_of(m["?x"]) if m else None
-                c, cr, caps = closure_ret(prog, args[1])
-                good = False
-                if i is not None and cr is not None:
-                    mm = match(cr, ("call", "*AddAssign>::add_assign", "_", (("param", 2, "?n"), "?b")))
-                    if mm is None:
-                        mm = match(cr, ("call", "*::translate_mut", "_", (("param", 2, "?n"), "?b")))
-                    good = mm is not None and mm["?b"][0] == "upvar" and caps and caps[mm["?b"][1]] == BY
-                if i is not None:
-                    eff[i] = "shift" if good else "?"
-                continue
-            # any other call that gets `&mut self.field`
-            for a_raw, a in zip(t["args"], args):
-                pl = a_raw.get("move") or a_raw.get("copy")
-                if pl is None:
+    def root_field(t):
+        """(field index on self, is the field itself / an element of it reached through iter_mut)"""
+        if match(t, ("field", SELF, "?i")) is not None:
+            return t[2], "whole"
+        m = match(t, ("payload", ("call", "*::next", "_", ("?it",))))
+        if m is not None:
+            it = m["?it"]
+            while it[0] == "call" and it[1].split("::")[-1] in ("into_iter", "by_ref") and len(it[3]) == 1:
+                it = it[3][0]
+            mm = match(it, ("call", "*::iter_mut", "_", (("field", SELF, "?i"),)))
+            if mm is not None:
+                return mm["?i"], "each"
+        for n in walk(t):
+            mm = match(n, ("field", SELF, "?i"))
+            if mm is not None:
+                return mm["?i"], "part"
+        return None, None
+    try:
+        summs = Paths(prog, loops="once").of(f)
+    except Unsupported:
+        return {i: "?" for i in range(nfields)}
+    for sm in summs:
+        for e in sm.effects:
+            if e[0] == "write":
+                i, how = root_field(e[1])
+                cls = classify(e[2], i) if how == "whole" else "?"
+            else:
+                c = e[1]
+                nm = c[1].split("::")[-1]
+                if nm in ("next", "iter_mut", "into_iter"):
                     continue
-                ty = body["locals"][pl["l"]]["ty"]
-                if isinstance(ty, dict) and ty.get("mut") and "ref" in ty:
-                    i = field_of(a)
-                    if i is not None and nm not in ("iter_mut",):
-                        eff[i] = "?"
+                i, how = root_field(c[3][0]) if c[3] else (None, None)
+                cls = "shift" if nm in ("add_assign", "translate_mut") and len(c[3]) == 2 and c[3][1] == BY and how in ("whole", "each") else "?"
+            if i is None:
+                return {k: "?" for k in range(nfields)}
+            seen.setdefault(i, set()).add(cls)
+    for i, cl in seen.items():
+        eff[i] = cl.pop() if len(cl) == 1 else "?"
     return eff
 
 
